@@ -221,8 +221,9 @@ pub fn find_unconstrained_less_than(cfg: &Cfg) -> ReportCollection {
         // Inputs are matched by the expression. An expression which reads a local variable may
         // have different values at different points of the template (an index variable has the
         // same name inside and after a loop), so for such an expression only a range check in
-        // the same basic block counts.
-        let is_fixed = value.locals_read().is_empty();
+        // the same basic block counts. A parameter of the template (as passed: a parameter
+        // which is assigned is a new variable) has one value.
+        let is_fixed = value.locals_read().iter().all(|var| cfg.parameters().contains(var.name()));
         // Check if the value is used as input for `LessThan` without being constrained to be
         // positive.
         let unchecked = data.less_than.iter().find(|(_, block)| {
